@@ -10,6 +10,24 @@ import math
 import numpy as onp
 
 
+SCALE_BANDS = (("tiny", -12.0, -6.0), ("small", -6.0, -2.0), ("unit", -2.0, 2.0), ("large", 2.0, 8.0))
+
+
+def abs_scale(rng):
+    """Absolute size of a whole configuration, stratified over 20 decades (the statements are scale free): the four
+    bands are drawn with equal probability, log-uniform inside a band."""
+    name, lo, hi = SCALE_BANDS[int(rng.integers(0, len(SCALE_BANDS)))]
+    return 10.0 ** rng.uniform(lo, hi)
+
+
+def band_of(x):
+    x = float(x)
+    for name, lo, hi in SCALE_BANDS:
+        if x < 10.0 ** hi:
+            return name
+    return "large"
+
+
 def rot(th):
     c, s = math.cos(th), math.sin(th)
     return onp.array([[c, -s], [s, c]])
@@ -25,14 +43,14 @@ def rigid(rng, X_list, spread):
 # ------------------------------------------------------------------------------------------------ closest point
 
 def cpp_random_batch(rng, n, decades=3.0):
-    """Segments over 2*decades decades of length, any orientation, offset from the origin by 0..100 lengths; points by
+    """Segments over 20 decades of absolute length (1e-12..1e8, see abs_scale), any orientation, offset from the origin by 0..100 lengths; points by
     (segment parameter s, normal offset d) classes: beyond start / interior / beyond end / next to an end; d over
     2*decades decades of the length, tiny, or zero."""
     E = onp.zeros((n, 2, 2))
     Pn = onp.zeros((n, 2))
     kinds = []
     for i in range(n):
-        L = 10.0 ** rng.uniform(-decades, decades)
+        L = abs_scale(rng)
         th = rng.uniform(0, 2 * math.pi)
         t = onp.array([math.cos(th), math.sin(th)])
         nrm = onp.array([t[1], -t[0]])
@@ -102,7 +120,7 @@ def cpp_corner_batch(rng, n):
             p = b + side * nrm
         else:
             p = a + frac * v + side * nrm
-        sc = 2.0 ** int(rng.integers(-10, 11))
+        sc = 2.0 ** int(rng.integers(-42, 25))      # lattice of size ~8 -> segment lengths 2e-13 .. 4e8
         a, b, p = a * sc, b * sc, p * sc
         if k.startswith("ulp"):
             j = int(rng.integers(0, 2))
@@ -154,7 +172,11 @@ def _parallel_canonical(rng, kind, same_direction, decades):
 
 
 def mortar_batch(rng, n, cls, decades=3.0):
-    """Returns placements (A1,B1), (A2,B2) as (n,2,2) arrays and a list of kind strings."""
+    """Returns placements (A1,B1), (A2,B2) (a rigid motion apart), (A3,B3) = f*(A1,B1) (a change of length unit, f (n,))
+    as (n,2,2) arrays and a list of kind strings.  The absolute size of every pair is drawn by abs_scale."""
+    A3 = onp.zeros((n, 2, 2))
+    B3 = onp.zeros((n, 2, 2))
+    F = onp.zeros(n)
     A1 = onp.zeros((n, 2, 2))
     B1 = onp.zeros((n, 2, 2))
     A2 = onp.zeros((n, 2, 2))
@@ -191,14 +213,20 @@ def mortar_batch(rng, n, cls, decades=3.0):
                     A = onp.array([[0.0, 0.0], [1.0, 0.3]])
         else:
             raise ValueError(cls)
-        s = 10.0 ** rng.uniform(-decades, decades)
+        s = abs_scale(rng) / max(onp.linalg.norm(A[1] - A[0]), onp.linalg.norm(B[1] - B[0]))
         A, B = A * s, B * s
         spread = max(onp.abs(A).max(), onp.abs(B).max())
         a1, b1 = rigid(rng, [A, B], spread)
         a2, b2 = rigid(rng, [a1, b1], max(onp.abs(a1).max(), onp.abs(b1).max()))
         A1[i], B1[i], A2[i], B2[i] = a1, b1, a2, b2
+        # change of unit: to another absolute size band; an exact power of two half of the time
+        f = abs_scale(rng) / max(onp.linalg.norm(a1[1] - a1[0]), onp.linalg.norm(b1[1] - b1[0]))
+        if rng.random() < 0.5:
+            f = 2.0 ** round(math.log2(f))
+        F[i] = f
+        A3[i], B3[i] = a1 * f, b1 * f
         kinds.append(kind)
-    return (A1, B1), (A2, B2), kinds
+    return (A1, B1), (A2, B2), (A3, B3, F), kinds
 
 
 # -------------------------------------------------------------------------------------- two facing polylines
@@ -207,7 +235,7 @@ def polyline_pair(rng, nA, nB, n_extra):
     """Two straight, parallel, facing polylines (B = integration side, nB segments; A = opposite side, nA segments),
     plus n_extra unrelated nodes.  Returns deformed node positions X (N,2), segment connectivities and the canonical
     abscissae used by the oracle."""
-    span = 10.0 ** rng.uniform(-2, 2)
+    span = abs_scale(rng)
     sB = onp.sort(rng.uniform(0.0, 1.0, size=nB + 1))
     sB[0], sB[-1] = 0.0, 1.0
     mode = int(rng.integers(0, 4))
